@@ -95,6 +95,17 @@ CLAIMED.update({
     },
 })
 
+CLAIMED.update({
+    "C09": {
+        "text": "Real XR reconciler (both composers, XRD key filter) and real claim reconciler (both syncers) over simkube: all 8 produced-key subsets x 4 key filters x 3 ways of asking x pre-existing destination secret {absent, uncontrolled connection type, uncontrolled Opaque, owned, other UID} x stale data; P&T extraction configs of all three types incl. missing keys / paths and unnamed configs; 9 source-secret situations x destination states for claim propagation (a claim never copies a secret its XR does not control; foreign secrets stay byte-identical); steady-state reconciles write nothing and do not move lastPublishedTime; one injected API fault (reads included) in any of 5 reconciles followed by fault-free reconciles to quiescence ends in the reference secrets.",
+        "technique": "exhaustive configuration enumeration plus single-fault enumeration on the real reconcilers against a reference model of published keys",
+    },
+    "C19": {
+        "text": "Depth-bounded exhaustive search (state-hash pruning) over creations / deletions of two Usages of one resource (by reference, by selector, with controller matching, with and without a using resource, naming API version v1 or v2, replayDeletion), real usage reconciles with an API write fault or crash at any call, DELETE requests with every propagation policy through both API versions, deletion of the using resource, garbage-collector runs and clock advances; DELETE admission is dispatched to the real webhook handler and index function according to the repository's webhook configuration. M1 every DELETE is refused while a Usage of the resource is Ready and not being deleted and allowed when none names it, M2 refused attempts are recorded, M3 marker before ready, M4 marker removed only by the last Usage, M5 a Usage by a resource is owned by it.",
+        "technique": "explicit-state search over event sequences with the real reconciler and admission handler as transition functions, plus fault/crash-point enumeration",
+    },
+})
+
 PENDING_REASON = "not claimed yet: the check for this property is still being built (design in DESIGN.md section 3); no technique switch is intended"
 
 
